@@ -162,6 +162,9 @@ impl Monitor for C06 {
             ("tests>=2".into(), tier.pick(500, 25_000)),
             ("f:scrut:exp:gt-after-exit".into(), tier.pick(200, 10_000)),
             ("f:scrut:exp:big-bracket".into(), tier.pick(400, 20_000)),
+            ("f:scrut:exp:cr-inside".into(), tier.pick(200, 10_000)),
+            ("f:scrut:exp:indented-ticks-info".into(), tier.pick(150, 7_500)),
+            ("f:scrut:exp:indented4-ticks".into(), tier.pick(150, 7_500)),
         ];
         p.assumptions = vec![
             "title: consecutive title-candidate lines are joined; without a candidate since the previous scrut block both \"\" and the previous title are accepted; after lines that Markdown reads as paragraph text but scrut does not (backticks, digits, emphasis), next to fenced blocks and after empty scrut blocks any in-order selection of the segment's lines is accepted".into(),
